@@ -47,11 +47,105 @@ def newNode (h : Heap) (d : Nat) (idx : Nat) (rest : Bytes) (parent : Option Id)
 /-- after a scalar or a closed container: `if current.parent != nil { current = current.parent }` -/
 def popCurrent (h : Heap) (cur : Id) : Id := ((h.get cur).parent).getD cur
 
+/-- result of one loop iteration: the new decoder state and the position of the LAST byte consumed (Go's
+`buf.index` before `buf.step()`), as remaining input starting at that byte -/
+abbrev StepRes := Except PErr (DState × Bytes × Nat)
+
+/-- a string starts where an object expects a key: `getString`, the key is kept pending -/
+def decodeKey (s : DState) (rest : Bytes) (idx : Nat) : StepRes :=
+  match stringLoop false rest idx s.state with
+  | .error e => .error e
+  | .ok p =>
+    match unquoteBytes (rest.take (p.idx + 1 - idx)) (UInt8.ofNat Gen.b_quotes) with
+    | none => .error (symErr p.rest p.idx)
+    | some k => .ok ({ s with state := Gen.sCO, key := some k }, p.rest, p.idx)
+
+/-- a string value -/
+def decodeString (d : Nat) (s : DState) (rest : Bytes) (idx : Nat) : StepRes :=
+  match newNode s.h d idx rest s.current .string s.key with
+  | .error e => .error e
+  | .ok (h1, cur) =>
+    match stringLoop false rest idx s.state with
+    | .error e => .error e
+    | .ok p =>
+      let h2 := h1.modify cur (fun r => { r with b1 := p.idx + 1 })
+      .ok ({ h := h2, state := Gen.sOK, key := none, current := some (popCurrent h2 cur) }, p.rest, p.idx)
+
+/-- a number (`st` is the state its first byte leads to) -/
+def decodeNumber (d : Nat) (s : DState) (st : Int) (rest : Bytes) (idx : Nat) : StepRes :=
+  match newNode s.h d idx rest s.current .numeric s.key with
+  | .error e => .error e
+  | .ok (h1, cur) =>
+    match numericLoop false rest idx s.state st with
+    | .error e => .error e
+    | .ok p =>
+      let h2 := h1.modify cur (fun r => { r with b1 := p.idx })
+      -- `buf.index -= 1`: the last byte consumed is the one before the terminator
+      let lastRest := rest.drop (p.idx - 1 - idx)
+      .ok ({ h := h2, state := Gen.sOK, key := none, current := some (popCurrent h2 cur) }, lastRest, p.idx - 1)
+
+/-- `true`, `false`, `null` -/
+def decodeWord (d : Nat) (s : DState) (st : Int) (rest : Bytes) (idx : Nat) : StepRes :=
+  let (t, w) := if st == Gen.sT1 then (NType.bool, wTrue) else if st == Gen.sF1 then (NType.bool, wFalse) else (NType.null, wNull)
+  match newNode s.h d idx rest s.current t s.key with
+  | .error e => .error e
+  | .ok (h1, cur) =>
+    match wordLoop w rest idx with
+    | .error e => .error e
+    | .ok (r, i) =>
+      let h2 := h1.modify cur (fun r => { r with b1 := i + 1 })
+      .ok ({ h := h2, state := Gen.sOK, key := none, current := some (popCurrent h2 cur) }, r, i)
+
+/-- `}` (after a member or directly after `{`) -/
+def decodeCloseObject (s : DState) (st : Int) (rest : Bytes) (idx : Nat) : StepRes :=
+  if st == Gen.aec && s.key.isSome then .error (symErr rest idx)
+  else match s.current with
+    | some c =>
+      if s.h.isObject c && !s.h.ready c then
+        let h2 := s.h.modify c (fun r => { r with b1 := idx + 1 })
+        .ok ({ s with h := h2, state := Gen.sOK, current := some (popCurrent h2 c) }, rest, idx)
+      else .error (symErr rest idx)
+    | none => .error (symErr rest idx)
+
+/-- `]` -/
+def decodeCloseArray (s : DState) (rest : Bytes) (idx : Nat) : StepRes :=
+  match s.current with
+  | some c =>
+    if s.h.isArray c && !s.h.ready c then
+      let h2 := s.h.modify c (fun r => { r with b1 := idx + 1 })
+      .ok ({ s with h := h2, state := Gen.sOK, current := some (popCurrent h2 c) }, rest, idx)
+    else .error (symErr rest idx)
+  | none => .error (symErr rest idx)
+
+/-- `{` or `[` -/
+def decodeOpen (d : Nat) (s : DState) (st : Int) (rest : Bytes) (idx : Nat) : StepRes :=
+  let t := if st == Gen.aco then NType.object else NType.array
+  match newNode s.h d idx rest s.current t s.key with
+  | .error e => .error e
+  | .ok (h1, cur) =>
+    .ok ({ h := h1, state := if st == Gen.aco then Gen.sOB else Gen.sAR, key := none, current := some cur }, rest, idx)
+
+/-- `,` -/
+def decodeComma (s : DState) (rest : Bytes) (idx : Nat) : StepRes :=
+  match s.current with
+  | none => .error (symErr rest idx)
+  | some c =>
+    if s.h.ready c then .error (symErr rest idx)
+    else if s.h.isObject c then .ok ({ s with state := Gen.sKE }, rest, idx)
+    else if s.h.isArray c then .ok ({ s with state := Gen.sVA }, rest, idx)
+    else .error (symErr rest idx)
+
+/-- `:` -/
+def decodeColon (s : DState) (rest : Bytes) (idx : Nat) : StepRes :=
+  match s.current with
+  | some c =>
+    if s.h.isObject c && s.key.isSome then .ok ({ s with state := Gen.sVA }, rest, idx)
+    else .error (symErr rest idx)
+  | none => .error (symErr rest idx)
+
 /-- One iteration of the `for` loop of `Unmarshal`, positioned on a non-whitespace byte `b` at index `idx`
-(`rest = b :: bs`). Returns the new decoder state and the position of the LAST byte consumed (Go's
-`buf.index` before `buf.step()`), as remaining input starting at that byte. -/
-def decodeStep (d : Nat) (s : DState) (b : UInt8) (bs : Bytes) (idx : Nat) :
-    Except PErr (DState × Bytes × Nat) :=
+(`rest = b :: bs`): `getState`, then the "change state" switch or the action switch. -/
+def decodeStep (d : Nat) (s : DState) (b : UInt8) (bs : Bytes) (idx : Nat) : StepRes :=
   let rest := b :: bs
   let cls := classOf false b
   if cls == -1 then .error (symErr rest idx)
@@ -61,84 +155,18 @@ def decodeStep (d : Nat) (s : DState) (b : UInt8) (bs : Bytes) (idx : Nat) :
     else if st ≥ 0 then
       -- region Change State
       if st == Gen.sST then
-        if (match s.current with | some c => s.h.isObject c | none => false) && s.key.isNone then
-          -- key: getString
-          match stringLoop false rest idx s.state with
-          | .error e => .error e
-          | .ok p =>
-            match unquoteBytes (rest.take (p.idx + 1 - idx)) (UInt8.ofNat Gen.b_quotes) with
-            | none => .error (symErr p.rest p.idx)
-            | some k => .ok ({ s with state := Gen.sCO, key := some k }, p.rest, p.idx)
-        else
-          match newNode s.h d idx rest s.current .string s.key with
-          | .error e => .error e
-          | .ok (h1, cur) =>
-            match stringLoop false rest idx s.state with
-            | .error e => .error e
-            | .ok p =>
-              let h2 := h1.modify cur (fun r => { r with b1 := p.idx + 1 })
-              .ok ({ h := h2, state := Gen.sOK, key := none, current := some (popCurrent h2 cur) }, p.rest, p.idx)
-      else if st == Gen.sMI || st == Gen.sZE || st == Gen.sIN then
-        match newNode s.h d idx rest s.current .numeric s.key with
-        | .error e => .error e
-        | .ok (h1, cur) =>
-          match numericLoop false rest idx s.state st with
-          | .error e => .error e
-          | .ok p =>
-            let h2 := h1.modify cur (fun r => { r with b1 := p.idx })
-            -- `buf.index -= 1`: the last byte consumed is the one before the terminator
-            let lastRest := rest.drop (p.idx - 1 - idx)
-            .ok ({ h := h2, state := Gen.sOK, key := none, current := some (popCurrent h2 cur) }, lastRest, p.idx - 1)
-      else if st == Gen.sT1 || st == Gen.sF1 || st == Gen.sN1 then
-        let (t, w) := if st == Gen.sT1 then (NType.bool, wTrue) else if st == Gen.sF1 then (NType.bool, wFalse) else (NType.null, wNull)
-        match newNode s.h d idx rest s.current t s.key with
-        | .error e => .error e
-        | .ok (h1, cur) =>
-          match wordLoop w rest idx with
-          | .error e => .error e
-          | .ok (r, i) =>
-            let h2 := h1.modify cur (fun r => { r with b1 := i + 1 })
-            .ok ({ h := h2, state := Gen.sOK, key := none, current := some (popCurrent h2 cur) }, r, i)
+        if (match s.current with | some c => s.h.isObject c | none => false) && s.key.isNone then decodeKey s rest idx
+        else decodeString d s rest idx
+      else if st == Gen.sMI || st == Gen.sZE || st == Gen.sIN then decodeNumber d s st rest idx
+      else if st == Gen.sT1 || st == Gen.sF1 || st == Gen.sN1 then decodeWord d s st rest idx
       else .ok ({ s with state := st }, rest, idx)
     else
       -- region Action
-      if st == Gen.aec || st == Gen.acc then
-        if st == Gen.aec && s.key.isSome then .error (symErr rest idx)
-        else match s.current with
-          | some c =>
-            if s.h.isObject c && !s.h.ready c then
-              let h2 := s.h.modify c (fun r => { r with b1 := idx + 1 })
-              .ok ({ s with h := h2, state := Gen.sOK, current := some (popCurrent h2 c) }, rest, idx)
-            else .error (symErr rest idx)
-          | none => .error (symErr rest idx)
-      else if st == Gen.abc then
-        match s.current with
-        | some c =>
-          if s.h.isArray c && !s.h.ready c then
-            let h2 := s.h.modify c (fun r => { r with b1 := idx + 1 })
-            .ok ({ s with h := h2, state := Gen.sOK, current := some (popCurrent h2 c) }, rest, idx)
-          else .error (symErr rest idx)
-        | none => .error (symErr rest idx)
-      else if st == Gen.aco || st == Gen.abo then
-        let t := if st == Gen.aco then NType.object else NType.array
-        match newNode s.h d idx rest s.current t s.key with
-        | .error e => .error e
-        | .ok (h1, cur) =>
-          .ok ({ h := h1, state := if st == Gen.aco then Gen.sOB else Gen.sAR, key := none, current := some cur }, rest, idx)
-      else if st == Gen.acm then
-        match s.current with
-        | none => .error (symErr rest idx)
-        | some c =>
-          if s.h.ready c then .error (symErr rest idx)
-          else if s.h.isObject c then .ok ({ s with state := Gen.sKE }, rest, idx)
-          else if s.h.isArray c then .ok ({ s with state := Gen.sVA }, rest, idx)
-          else .error (symErr rest idx)
-      else if st == Gen.acl then
-        match s.current with
-        | some c =>
-          if s.h.isObject c && s.key.isSome then .ok ({ s with state := Gen.sVA }, rest, idx)
-          else .error (symErr rest idx)
-        | none => .error (symErr rest idx)
+      if st == Gen.aec || st == Gen.acc then decodeCloseObject s st rest idx
+      else if st == Gen.abc then decodeCloseArray s rest idx
+      else if st == Gen.aco || st == Gen.abo then decodeOpen d s st rest idx
+      else if st == Gen.acm then decodeComma s rest idx
+      else if st == Gen.acl then decodeColon s rest idx
       else .error (symErr rest idx)
 
 /-- the `for` loop; `rest` is positioned on a non-whitespace byte. Fuel = input length + 1 (every iteration
